@@ -52,10 +52,15 @@ class Sock:
         self.sent.append(data)
 
     def recv(self, n):
+        from symx import core
+        if callable(self.reply):
+            return self.reply(self.sent[-1])
         if self.reply is not None:
             return self.reply
         import struct
-        return struct.pack('=IHHII', 36, 2, 0, 0, 0) + struct.pack('=i', 0) + bytes(16)
+        # the kernel's ack: NLMSG_ERROR with errno 0, the sequence number of the request and the KERNEL's choice of port id
+        seq = core.SymBytes.lift(self.sent[-1])[8:12]
+        return (core.SymBytes.lift(struct.pack('=IHH', 36, 2, 0)) + seq + struct.pack('=I', 0x7F000001) + struct.pack('=i', 0) + bytes(16)).lower()
 
     def close(self):
         pass
@@ -371,8 +376,16 @@ def h_expire_error():
     s = with_socket()
     N = T['nlmsgerr']
     eb = klayout.encode([(N['error'][0], 4, err, False)], N['__size'])
-    eh = klayout.encode([(0, 4, T['nlmsghdr']['__size'] + len(eb), False), (4, 2, K['NLMSG_ERROR'], False)], T['nlmsghdr']['__size'])
-    s.reply = core.SymBytes(eh + eb).lower()
+    port = eng.sym_int('kernel_port_id', 0, 0xFFFFFFFF)
+
+    def reply(request):
+        # the reply carries the request's sequence number and an ARBITRARY port id (the kernel puts the id of the sending socket there, which is
+        # the process id only for the first netlink socket of a process)
+        seq = core.SymBytes.lift(request)[8:12]
+        eh = klayout.encode([(0, 4, T['nlmsghdr']['__size'] + len(eb), False), (4, 2, K['NLMSG_ERROR'], False), (8, 4, seq, True), (12, 4, port, False)],
+                            T['nlmsghdr']['__size'])
+        return core.SymBytes(eh + eb).lower()
+    s.reply = reply
     MNL.os = types.SimpleNamespace(getpid=lambda: 1, strerror=lambda e: 'kernel error')
     raised = False
     try:
